@@ -19,6 +19,7 @@ import subprocess
 import sys
 import time
 import traceback
+import zlib
 
 VERIF = os.path.dirname(os.path.dirname(os.path.abspath(__file__)))
 PY = os.path.join(VERIF, ".venv", "bin", "python")
@@ -145,7 +146,7 @@ def concrete_sweep_main(modname, tier, repo, seed, runs):
             for k in range(runs):
                 if time.time() > t_end:
                     break
-                ctx = ConcCtx(lw, seed=hash((seed, name, ci, k)) & 0xFFFFFFF)
+                ctx = ConcCtx(lw, seed=zlib.crc32(repr((seed, name, ci, k)).encode()))
                 try:
                     fn(ctx, **case)
                 except alg.Unsupported:
